@@ -113,6 +113,10 @@ type ZMaps struct {
 	SV map[string]ZInner
 	SF map[string]float32
 }
+type ZAnon struct {
+	Name  string
+	Inner struct{ A int32 }
+}
 type ZEmbedded struct {
 	ZInner
 	X int32
@@ -330,14 +334,15 @@ func siZoo(rng *rand.Rand, n int) map[string]interface{} {
 		"scalars": &ZScalars{B: n%2 == 0, I8: int8(n), I16: int16(-n), I32: math.MinInt32 + int32(n), I: n * 1000, I64: math.MaxInt64 - int64(n),
 			U8: uint8(n), U16: uint16(n * 7), U32: math.MaxUint32 - uint32(n), U: uint(n) << 20, U64: uint64(n) << 40, F32: float32(n) + 0.5, F64: float64(n) * 1.1,
 			S: siRandString(rng, n), Bin: bytes.Repeat([]byte{byte(n)}, n), T: siMillis(rng)},
-		"lists":     &ZLists{Ints: ints, Longs: longs, Strs: strs, Floats: floats, Structs: structs, Ptrs: ptrs, Nested: nested, Times: times},
-		"maps":      &ZMaps{SS: ss, SP: sp, SI: si, IS: is, SU: su, SV: sv, SF: sf},
-		"embedded":  &ZEmbedded{ZInner{int32(n), "e"}, 7},
-		"named":     &ZWithNamed{A: ZNamed{"a"}, L: []ZNamed{{"x"}, {"y"}}},
-		"[]int32":   ints,
-		"[]string":  strs,
-		"[]struct":  structs,
-		"[]*struct": ptrs,
+		"lists":                  &ZLists{Ints: ints, Longs: longs, Strs: strs, Floats: floats, Structs: structs, Ptrs: ptrs, Nested: nested, Times: times},
+		"maps":                   &ZMaps{SS: ss, SP: sp, SI: si, IS: is, SU: su, SV: sv, SF: sf},
+		"embedded":               &ZEmbedded{ZInner{int32(n), "e"}, 7},
+		"anonymous-struct-field": &ZAnon{Name: "x", Inner: struct{ A int32 }{int32(n)}},
+		"named":                  &ZWithNamed{A: ZNamed{"a"}, L: []ZNamed{{"x"}, {"y"}}},
+		"[]int32":                ints,
+		"[]string":               strs,
+		"[]struct":               structs,
+		"[]*struct":              ptrs,
 		// []T and []*T of one T in the same message share the wire type name: nil elements are lost (known finding)
 		"collision-nil-in-ptr-slice": &ZCollide{Vals: structs, Ptrs: withNils(ptrs)},
 		"ptr-slice-with-nils":        &ZOnlyPtrs{Ptrs: withNils(ptrs)},
@@ -426,10 +431,10 @@ func siC01(r *siReport) {
 		r.ok(cn)
 	}
 	if siDeep() {
-		r.done("zoo of 9 shapes x every length 0..600 and 1023..5000 across the list growth steps x seeded contents; 14 top-level scalars")
+		r.done("zoo of 10 shapes x every length 0..600 and 1023..5000 across the list growth steps x seeded contents; 14 top-level scalars")
 		return
 	}
-	r.done("zoo of 9 shapes x lengths {0..600 incl. every length form and the 8-bit wrap points, and 1023..5000 across the list growth steps} x seeded contents; 14 top-level scalars")
+	r.done("zoo of 10 shapes x lengths {0..600 incl. every length form and the 8-bit wrap points, and 1023..5000 across the list growth steps} x seeded contents; 14 top-level scalars")
 }
 
 // ---------------------------------------------------------------- C09: strings and binaries around chunk boundaries
@@ -1322,6 +1327,7 @@ type ZUnexported struct {
 
 func siC13(r *siReport) {
 	bads := map[string]interface{}{"chan": make(chan int), "func": func() {}, "complex": complex(1, 2), "uintptr-like-complex64": complex64(1), "nil-chan": (chan int)(nil),
+		"nan-keyed-map":    map[float64]string{math.NaN(): "x", 1: "y"},
 		"unexported-field": ZUnexported{A: 1, b: "x"}, "ptr-unexported-field": &ZUnexported{A: 2, b: "y"}}
 	var bnames []string
 	for k := range bads {
@@ -1370,7 +1376,34 @@ func siC13(r *siReport) {
 			}
 		}
 	}
-	r.done("7 unrepresentable values (channel, function, complex128, complex64, nil channel, struct with an unexported field by value and by pointer) x 8 positions (top, field, list first/middle/last, nested list, map value, map in list)")
+	// a stream on which a value was refused accepts nothing more until it is restarted
+	for bn, bad := range map[string]interface{}{"list-with-chan": []interface{}{int32(1), make(chan int)}, "struct-with-func": &ZBadHolder{A: 1, X: func() {}}} {
+		sz := NewSerializer(nil, map[string]string{"ZBadHolder": "ZBadHolder"})
+		var w bytes.Buffer
+		cn := "stream-retry/" + bn
+		if err := sz.WriteTo(&w, int32(1)); err != nil {
+			r.fail(cn, err.Error())
+			continue
+		}
+		e1 := sz.Write(bad)
+		n1 := w.Len()
+		e2 := sz.Write(bad)
+		e3 := sz.Write(int32(2))
+		w.Reset()
+		e4 := sz.WriteTo(&w, int32(3))
+		switch {
+		case e1 == nil || e2 == nil:
+			r.fail(cn, fmt.Sprintf("the refused value was accepted (first %v, second %v)", e1, e2))
+		case e3 == nil:
+			r.fail(cn, "a value was appended behind the torn one")
+		case e4 != nil || w.Len() != 1:
+			r.fail(cn, fmt.Sprintf("a new stream does not start clean: %v, %d octets", e4, w.Len()))
+		default:
+			_ = n1
+			r.ok(cn)
+		}
+	}
+	r.done("8 unrepresentable values (channel, function, complex128, complex64, nil channel, struct with an unexported field by value and by pointer, map with a NaN key) x 8 positions (top, field, list first/middle/last, nested list, map value, map in list)")
 }
 
 // ---------------------------------------------------------------- C14: hostile input
